@@ -182,6 +182,7 @@ PROPS["C07"] = dict(
         R("C07.no_idle_teardown", "kechan", "TestC07NoIdleTeardown", 8, 600, shrink=5, quick=dict(checks=8, shards=4, timeout=600)),
         R("C07.late_duplicates_then_idle", "kechan", "TestC07LateDuplicates", 48, 4000, shrink=5, quick=dict(shards=4, timeout=600)),
         R("C07.outage_beyond_reject_after", "kechan", "TestC07OutageBeyondReject", 40, 1500, shrink=5, quick=dict(shards=4, timeout=600)),
+        R("C07.silent_replacement", "kechan", "TestC07SilentReplacement", 16, 800, shrink=5, quick=dict(checks=16, shards=4, timeout=600)),
     ],
 )
 
